@@ -409,8 +409,12 @@ def judge_c07(case, o, r):
             if hi is not None and i != j and math.isfinite(cv) and cb <= 1e-9:
                 # full precision: equal to the registered correlation, or to it rounded to the 3
                 # decimals of the display
+                # (numpy's inverse of an ill-conditioned normal matrix is symmetric only up to
+                # kappa*eps -- 1.4e-9 seen for degree 5 -- and pair (i,j) is registered from the
+                # upper triangle: the matrix's own asymmetry is allowed for)
                 hv = hi[i * m + j]
-                if not (abs(hv - cv) <= 1e-9 + 64 * cb or abs(hv - round(cv, 3)) <= 1e-12):
+                asym = abs(hv - hi[j * m + i])
+                if not (abs(hv - cv) <= 1e-9 + 4 * asym + 64 * cb or abs(hv - round(cv, 3)) <= 1e-12):
                     fails.append(fail(
                         "c07:reported-correlation:" + t,
                         "entry ({},{}) of the reported correlation matrix is {!r} (str(result) with "
